@@ -17,15 +17,16 @@ def run(ctx):
         ctx, harness="hC20", extracted="C20_model", driver_dir="C20",
         rule=("non-trivial: grpc/json cases with >=2 entries or metadata on the first entry; scenario cases with >=2 shots "
               "and at least one call definition carrying metadata; any case with reflect_metadata, planned target answers, "
-              "think time or latencies; "
+              "think time or latencies; overloaded engine cases (ov=) with at least one discarded token and two shot entries; "
               "distinct = distinct case lines"),
         key_fn=key_fn,
         translators=[("grpcstatus", "GrpcStatusGen.v"), ("grpcdial", "GrpcDialGen.v")],
-        bridge_files=["Gen/GrpcStatus_bridge.v", "Gen/GrpcDial_bridge.v", "Properties/C20_wire.v", "Properties/C20_time.v"],
+        bridge_files=["Gen/GrpcStatus_bridge.v", "Gen/GrpcDial_bridge.v", "Properties/C20_wire.v", "Properties/C20_time.v", "Properties/C20_pool.v"],
         trusted=[
             "translator harness/cmd/translate grpcstatus (ConvertGrpcStatus switch -> Gen/GrpcStatusGen.v, used for the sample codes)",
             "translator harness/cmd/translate grpcdial (dial options of MakeGRPCConnect, dial sites, InvokeRpc call options, metadata expression of every "
-            "outgoing context, (function, parent context, duration) of every context.WithTimeout/WithDeadline in components/guns/grpc/**.go "
+            "outgoing context, (function, parent context, duration) of every context.WithTimeout/WithDeadline in components/guns/grpc/**.go, "
+            "every provider.Release call of core/engine/instance.go "
             "-> Gen/GrpcDialGen.v, bridged by Gen/GrpcDial_bridge.v)",
             "extraction: ExtrOcamlBasic only; OCaml driver ocaml/C20/main.ml + ocaml/common/conv.ml",
             "correspondence harness harness/cmd/hC20 + harness/internal/a20 (in-process examples/grpc/server with reflection and a recording "
